@@ -25,6 +25,46 @@ theorem C05_retry (fuel : Nat) (t₁ : OTree) (g₁ : BGeom) (p q : Bytes) (t : 
   ⟨C05_stream_truncated fuel t₁ g₁ p q s he₁ hf₁ hs₁ hq ha₁,
    C05_stream_read fuel t g enc rest (afterErr s) he hf hs ha⟩
 
+/-- a reader that OBSERVES its own state when it fails: it behaves as the scripted reader (`fillR`), but in place of
+its error it reports how many events it has left at that moment -/
+def obsSrc : Src Script :=
+  ⟨fun k s => match fillR s k [] with
+    | (.ok b, s') => .ok (b, s')
+    | (.error _, s') => .error (.io s'.length)⟩
+
+/-- **C05_read_failure_observed.**  `wkb.Read` (`readS`, = the regenerated streaming `Read` on scripted readers) run on
+the observing reader, started at `s₀`: either it returns the reader's report, and the report is the size of
+`afterErr s₀` — the reader stood at `afterErr s₀` when the call failed, wherever inside the value that was —, or it
+does exactly what it does on the plain scripted reader (same value and same reader afterwards, or the same
+package error).  This is `C05_failed_read_state` carried through the whole of `wkb.Read` by its parametricity. -/
+theorem C05_read_failure_observed (fuel : Nat) (s₀ : Script) :
+    readS obsSrc fuel s₀ = .error (.io (afterErr s₀).length) ∨
+    (∃ g s', readS obsSrc fuel s₀ = .ok (g, s') ∧ readS scriptSrc fuel s₀ = .ok (g, s')) ∨
+    (∃ e, readS obsSrc fuel s₀ = .error e ∧ readS scriptSrc fuel s₀ = .error e) := by
+  have hS : ∀ k, RelM (fun a b : Script => a = b ∧ Reach s₀ a) (fun e => e = .io (afterErr s₀).length)
+      (obsSrc.take k) (scriptSrc.take k) := by
+    rintro k a b ⟨rfl, hr⟩
+    have hf := fillR_fill a k []
+    cases hR : fillR a k [] with
+    | mk r s' =>
+      cases r with
+      | ok bs =>
+        rw [hR] at hf
+        refine .inr (.inl ⟨bs, s', s', by simp [obsSrc, hR], by simpa [scriptSrc] using hf, rfl, reach_step hr hf⟩)
+      | error e =>
+        have hst := C05_failed_read_state hr k e (by rw [hR])
+        rw [hR] at hst
+        simp only at hst
+        subst hst
+        exact .inl ⟨.io (afterErr s₀).length, by simp [obsSrc, hR], rfl⟩
+  rcases readS_rel hS fuel s₀ s₀ ⟨rfl, reach_refl s₀⟩ with ⟨e, hx, he⟩ | ⟨g, s₁, s₂, hx, hy, rfl, _⟩ | ⟨e, hx, hy⟩
+  · exact .inl (by rw [hx, he])
+  · exact .inr (.inl ⟨g, s₁, hx, hy⟩)
+  · exact .inr (.inr ⟨e, hx, hy⟩)
+
+/-- non-vacuity: the observing reader on `exRetry` (below) reports 2 events left = `afterErr exRetry` -/
+example : readS obsSrc 3 [.data [0, 0, 0], .fail (.other 5), .data [1, 1, 0, 0, 0], .data [1]] = .error (.io 2) := by rfl
+
 /-- non-vacuity: a big-endian point cut after 3 bytes by the reader's error 5, then a complete little-endian
 point and one more byte -/
 def exRetry : Script := [.data [0, 0, 0], .fail (.other 5),
